@@ -149,4 +149,8 @@ def retry (maxRetries : Nat) : (retries : Nat) → List Attempt → Nat × Optio
       (r.1 + 1, r.2)
     else (1, some a)
 
+/-- `Config.MaxRetries` is a Go `int`: the test `retries >= maxRetries` with a negative budget ends the loop
+after the first attempt, exactly as budget 0 does -/
+def retryInt (maxRetries : Int) (outs : List Attempt) : Nat × Option Attempt := retry maxRetries.toNat 0 outs
+
 end Ldlm.Client
